@@ -52,8 +52,19 @@ def build_tree(rng, root):
     w(os.path.join(root, d2, bn), "k DECOY\n")
     w(os.path.join(lib, an), "k from-a\n%include " + q(d2 + "/" + bn) + "\n")
     w(os.path.join(root, mainn), "k from-main\n%include " + q(d1 + "/" + an) + "\ninc done\n")
+    # references carrying a fragment identifier, at the top of a chain and one level down: all must be rejected
+    fa, fm1, fm2 = rand_name(rng, ".conf"), rand_name(rng, "-f1.conf"), rand_name(rng, "-f2.conf")
+    w(os.path.join(lib, fa), "k from-fa\n%include " + q(d2 + "/" + bn) + "#part-2\n")
+    w(os.path.join(root, fm1), "k from-main\n%include " + q(d1 + "/" + an) + "#sec\ninc done\n")
+    w(os.path.join(root, fm2), "k from-main\n%include " + q(d1 + "/" + fa) + "\ninc done\n")
+    fs1, fs2, fmid = rand_name(rng, "-s1.xml"), rand_name(rng, "-s2.xml"), rand_name(rng, "-fm.xml")
+    w(os.path.join(root, fs1), "<schema extends=%s><multikey name='k'/><key name='inc'/></schema>" % _qa(q(d1 + "/" + midn) + "#x"))
+    w(os.path.join(lib, fmid), "<schema><import src=%s/><key name='mid' default='m'/></schema>" % _qa(q(d2 + "/" + basen) + "#types"))
+    w(os.path.join(root, fs2), "<schema extends=%s><multikey name='k'/><key name='inc'/></schema>" % _qa(q(d1 + "/" + fmid)))
     return {"schema": os.path.join(root, topn), "config": os.path.join(root, mainn), "dirs": [root, lib, deep, os.path.dirname(root)],
-            "expect_k": ["from-main", "from-a", "from-b"]}
+            "expect_k": ["from-main", "from-a", "from-b"],
+            "frag_configs": [os.path.join(root, fm1), os.path.join(root, fm2)],
+            "frag_schemas": [os.path.join(root, fs1), os.path.join(root, fs2)]}
 
 
 def _qa(s):
@@ -171,6 +182,40 @@ def run(ctx):
                             ctx.violate("configuration loaded by %s from cwd %r gives %r" % (cway, cwd, got),
                                         {"tree": _listing(root), "cwd": cwd, "way": cway, "arg": carg, "got": got, "expected": t["expect_k"]},
                                         signature="C18:config:%s:%s" % (cway, "exc" if isinstance(got, str) else "wrong-resource"))
+            # a reference carrying a fragment identifier is rejected, whichever way the top resource is named
+            good_schema = None
+            for cwd in t["dirs"]:
+                os.chdir(cwd)
+                if good_schema is None:
+                    good_schema = ZConfig.loadSchema(t["schema"])
+                for kind, paths in (("config", t["frag_configs"]), ("schema", t["frag_schemas"])):
+                    for pth in paths:
+                        for way, arg in ways(pth, cwd):
+                            ctx.evaluations += 1
+                            ctx.nontriv((root, cwd, way, "fragment", pth))
+                            try:
+                                if kind == "config":
+                                    if way.startswith("fileobj"):
+                                        with open(arg, encoding="utf-8") as f:
+                                            ZConfig.loadConfigFile(good_schema, f)
+                                    else:
+                                        ZConfig.loadConfig(good_schema, arg)
+                                else:
+                                    if way.startswith("fileobj"):
+                                        with open(arg, encoding="utf-8") as f:
+                                            ZConfig.loadSchemaFile(f)
+                                    else:
+                                        SchemaLoader().loadURL(arg)
+                                got = "accepted"
+                            except ZConfig.ConfigurationError:
+                                got = "rejected"
+                            except Exception as e:
+                                got = "EXC:%s" % type(e).__name__
+                            ctx.count("fragment-ref:" + got)
+                            if got != "rejected":
+                                ctx.violate("a %s reference carrying a fragment identifier was %s (top resource named by %s, cwd %r)" % (kind, got, way, cwd),
+                                            {"tree": _listing(root), "cwd": cwd, "way": way, "arg": arg, "text": open(pth, encoding="utf-8").read()},
+                                            signature="C18:fragment-ref:%s:%s" % (kind, got))
             # reused SchemaLoader across chdir with a relative path
             for cwd in t["dirs"]:
                 os.chdir(cwd)
